@@ -219,6 +219,7 @@ void evalConfig(const int height, const int boxId, const int setId, Report& rep,
     if(thorough){ cfgs.push_back({7, false, 3}); cfgs.push_back({2, true, 4}); cfgs.push_back({-1, false, 0}); }
     Res ref; bool haveRef = false;
     for(const Cfg& c : cfgs){
+        if(c.exec != 0 && height >= 6) continue;      // the mock runtime's readiness test is cubic in the number of tasks (thousands here); heights <= 5 cover the executors
         bool finite = true;
         const Res got = runFmm<Real, Kernel, M, L>(parts, height, box, c.bs, c.og, c.exec, KT::maker(), finite);
         const std::string cs = base + " bs=" + std::to_string(c.bs) + " ogpp=" + std::to_string(c.og) + " exec=" + std::to_string(c.exec);
@@ -326,8 +327,10 @@ void evalPeriodicNum(const int height, const int boxId, const int setId, const l
     const Err e = relErr(got, ex, apot, aforce);
     const std::string tag = std::string("periodic order=") + std::to_string(ORD) + (sizeof(Real) == 4 ? " float" : " double");
     ms.worstPot[tag] = std::max(ms.worstPot[tag], e.pot); ms.worstForce[tag] = std::max(ms.worstForce[tag], e.force);
-    if(e.pot > boundPotPer(ORD)){ std::ostringstream o; o << base << ": potential error " << (double)e.pot << " against the explicit sum over images " << lo << ".." << hi << " above the bound " << boundPotPer(ORD); out.add("accuracy:periodic-potential-above-order-bound", o.str()); }
-    if(e.force > boundForcePer(ORD)){ std::ostringstream o; o << base << ": force error " << (double)e.force << " above the bound " << boundForcePer(ORD); out.add("accuracy:periodic-force-above-order-bound", o.str()); }
+    // the periodic bounds were measured on heights 2..3 (quick space); deeper trees are held to the kernel's per-order bound
+    const double bPot = height <= 3 ? boundPotPer(ORD) : std::max(boundPotPer(ORD), boundPot(ORD)), bForce = height <= 3 ? boundForcePer(ORD) : std::max(boundForcePer(ORD), boundForce(ORD));
+    if(e.pot > bPot){ std::ostringstream o; o << base << ": potential error " << (double)e.pot << " against the explicit sum over images " << lo << ".." << hi << " above the bound " << bPot; out.add("accuracy:periodic-potential-above-order-bound", o.str()); }
+    if(e.force > bForce){ std::ostringstream o; o << base << ": force error " << (double)e.force << " above the bound " << bForce; out.add("accuracy:periodic-force-above-order-bound", o.str()); }
     rep.evaluations += 1; rep.nontrivial += 1;
     rep.addOutcome(out, base);
 }
@@ -392,6 +395,7 @@ int main(int argc, char** argv){
     return supervise(args, args.mode, [&](Report& rep, Progress& pg){
         Measure ms;
         g_pg = &pg;
+        vfs::progressHook = &beat;
         unsigned long ord = 0;
 #ifdef VF_NUM_LIGHT
 #define VF_FULL(...)
